@@ -205,7 +205,8 @@ def gen_cases(ctx):
     ctx.cov["distribution"] = {"pool": len(P), "pairs": len(P) ** 2, "tuple_pool": len(T), "tuple_pairs": len(T) ** 2,
                                "hashsets": n_sets, "variants_in_pool": len(set(term_variant(p) for p in P)),
                                "json_texts_from_impl": len(jt)}
-    ctx.cov["exhaustive"] = "all ordered pairs (and hence all triples) of the pool"
+    ctx.cov["exhaustive"] = True
+    ctx.cov["exhaustive_over"] = "all ordered pairs (and hence all triples) of the pool"
     return lines
 
 
@@ -328,6 +329,24 @@ def nontrivial(case):
 
 
 def run(ctx):
+    ctx.assumptions += [
+        "IEEE-754 `==` and NaN classification on bit patterns (coq/Model/FloatBits.v) are proved equal to Flocq 4.1's "
+        "Bcompare .. = Some Eq / is_nan on b32_of_bits / b64_of_bits for every bit pattern in range "
+        "(coq/Proofs/FloatBitsFlocq.v); only these four bridge theorems depend on the axioms Flocq imports "
+        "(ClassicalDedekindReals.sig_not_dec, ClassicalDedekindReals.sig_forall_dec, "
+        "FunctionalExtensionality.functional_extensionality_dep, Classical_Prop.classic; coq/assumptions.allow); that "
+        "Rust's f32/f64 `==` is IEEE compareQuietEqual is tied by running the real comparisons on all pairs of bit "
+        "patterns of every class",
+        "ordered-float 4.6.0 (OrderedFloat::eq / ::hash, raw_double_bits) and num-traits integer_decode are transcribed into "
+        "FloatBits.v; the hashed u64 is compared call by call with the recorded Hasher stream",
+        "Eq / Hash of the payload crates (chrono, time, rust_decimal, bigdecimal, uuid, ipnetwork, mac_address) are abstract "
+        "in the model (equal ids = equal values, HOpaque id) and assumed coherent; the law oracle samples them on the "
+        "implementation, including different representations of equal decimals and instants",
+        "serde_json::to_string is not modelled: its output is taken from the implementation and given to the model as text",
+        "std: derived Hash of Option / Vec / fieldless enums, Hash of integers, str, [u8], mem::Discriminant (transcribed as "
+        "typed Hasher calls; compared with the recorded stream)",
+        "tools/valuetypes.py (translator over the source text of src/value.rs; accepts only the item shapes it knows)",
+    ]
     return vlib.standard_flow(
         ctx, "fb", gen_cases, batch_oracle=batch_oracle, describe=describe, nontrivial=nontrivial, model_name="c12",
         regen=regen,
